@@ -137,6 +137,15 @@ def main():
     check('t_fn_item', len(rets) == 1 and rets[0][3][0] == 'tup' and peq(rets[0][3][1][0], ('add', S('x'), I(2))), 'a fn item passed as a value is callable (inc(inc(x)) = x + 2) and hashable inside terms; got %s' % [x[2] for x in rets])
     o = run('t_option_eq', ['x']); rets = [x for x in o if x[0] == 'ret']
     check('t_option_eq', sorted(x[2] for x in rets) in (['False', 'False', 'True'], ['False', 'True']), 'Some(2) == Some(2) is True, Some(1) == Some(2) and None == Some(2) are False; got %s' % [(x[1], x[2]) for x in rets])
+    o = run('t_table', ['name', 'base', 'p']); rets = [x for x in o if x[0] == 'ret']
+    check('t_table', len(rets) in (8, 12) and any(x[2] == '[]' for x in rets) and any('"name", "base", "precision"' in x[2] for x in rets),
+          'table-driven validation: one path per combination of the three tests (2 x 2 x 2, the range test may split in two), from [] to all three names; got %d: %s' % (len(rets), sorted(x[2] for x in rets)))
+    o = run('t_any_true', ['v']); rets = [x for x in o if x[0] == 'ret']
+    check('t_any_true', len(rets) == 1 and 'is_empty' in rets[0][2], '!v.iter().any(|_| true) is v.is_empty(); got %s' % [x[2] for x in rets])
+    o = run('t_or_fact', ['a', 'b']); rets = [x for x in o if x[0] == 'ret']
+    check('t_or_fact', not any(x[2] == '99' for x in rets) and any(x[2] == '1' for x in rets), 'after both_or_neither(a, b) the mixed arm is unreachable (no path returns 99); got %s' % sorted(x[2] for x in rets))
+    o = run('t_provided', ['r']); oks = [x for x in o if x[0] == 'ok']; errs = [x for x in o if x[0] == 'err']
+    check('t_provided', len(oks) == 1 and len(errs) == 1 and any('sym(r).n < 1' in ' '.join(x[1]) for x in errs), 'provided method -> required method of the concrete impl: Ok iff n >= 1; got ok %s err %s' % ([x[1] for x in oks], [(x[1], x[2]) for x in errs]))
     # engine: equalities implied by order facts (total order): b<a false, m==a, m<b false ==> a==b
     import engine as _e
     class _PV(_e.PathView):
